@@ -16,7 +16,7 @@ EXPLANATION = ("Theorem resolve_valid (for EVERY document: resolve d = ok g -> S
 
 
 def run(ctx):
-    n = 120 if ctx.tier == "quick" else 2500
+    n = 360 if ctx.tier == "quick" else 4000
     done = 0
     while done < n and ctx.time_left() > 10:
         models = gen_models(ctx, min(120, n - done), max_demes=6 if ctx.tier == "quick" else 9)
